@@ -201,7 +201,10 @@ def main():
 
     def work(i):
         for s in chunks[i]:
-            steps = ["check"] + (["test", "probe"] if s in heavy else [])
+            # every subset: the library compiles (implied by the probe build), the in-place probe runs and prints
+            # the full-feature-set / R1 transcript, the allocating API is present iff alloc or std;
+            # heavy subsets additionally run the crate's own tests
+            steps = ["probe"] + (["check", "test"] if s in heavy else [])
             do_subset(s, tdirs[i], expect_lines, steps, results[i])
     g = os.path.join(ROOT, "target", "c17g")
     gres = Result()
@@ -257,9 +260,9 @@ def main():
         print("MACHINERY-ERROR " + m, file=sys.stderr)
     ev = {"property_id": "C17", "tier": tier, "seed": int(os.environ.get("VERIF_SEED", "0")), "level": "exploration",
           "coverage": {"evaluations": res.evals, "distinct_nontrivial": len(res.nontrivial),
-                       "rule": "every subset of the [features] table of Cargo.toml is enumerated (complete lattice); per subset `cargo check --lib`; for the heavy subsets (all of them in the thorough tier) also the crate's own tests (kat_test skipped: its vector file is a 0-byte stub in this tree), a probe that uses only the in-place API and whose scripted transcript per enabled KEM must equal the full-feature-set / R1 transcript, and a probe of the allocating API that must compile iff alloc or std is on; guard on for the full and default sets, guard additivity scan, examples/benches; non-trivial = a (subset, step) whose outcome was compared (tests ran, transcript non-empty, alloc presence/absence confirmed)",
-                       "samples": res.samples[:6] + [{"subset": ",".join(s) or "(none)", "steps": "check" + ("+test+probe" if s in heavy else "")} for s in order[:2] + order[-2:]],
-                       "exhaustive": True, "feature_subsets": len(subsets), "subsets_with_tests_and_probes": len(heavy), "features": feats,
+                       "rule": "every subset of the [features] table of Cargo.toml is enumerated (complete lattice); per subset a probe crate is built against the library with exactly that subset (so the library compiles), the probe uses only the in-place API and its scripted transcript per enabled KEM must equal the full-feature-set / R1 transcript, and a second probe of the allocating API must compile iff alloc or std is on; for the heavy subsets (all of them in the thorough tier) also `cargo check --lib` on its own and the crate's own tests (kat_test skipped: its vector file is a 0-byte stub in this tree); guard on for the full and default sets, guard additivity scan, examples/benches; non-trivial = a (subset, step) whose outcome was compared (tests ran, transcript non-empty, alloc presence/absence confirmed)",
+                       "samples": res.samples[:6] + [{"subset": ",".join(s) or "(none)", "steps": "probe" + ("+check+test" if s in heavy else "")} for s in order[:2] + order[-2:]],
+                       "exhaustive": True, "feature_subsets": len(subsets), "subsets_with_probes": len(subsets), "subsets_with_crate_tests": len(heavy), "features": feats,
                        "distinct_outcomes": len(res.outcomes), "outcomes": res.outcomes, "machinery_errors": len(res.mach)},
           "assumptions": ["cargo and rustc resolve features as documented; kat_tests::kat_test is skipped because its vector file is empty in this sandbox", "guard-on behaviour is compared on the full and default sets only"],
           "wall_s": round(time.time() - t0, 2), "violations": nviol}
